@@ -182,9 +182,22 @@ def check_files(gene, sols, cov):
         # identify by ID/REF/ALT among the variants at this position
         m = next((x for x in cand if spells(gene, x, ref, alt, strict=True)), None)
         if m is None:
-            m = cand[0]
-            kind = ("ins" if m.op.startswith("ins") else "delins" if "ins" in m.op else
-                    "del" if m.op.startswith("del") else "mnp" if len(m.op) > 3 else "snp")
+            # the recorded rendering defect of write_vcf (diplotype.py:157-163): insertions
+            # get REF 'i', everything that is neither a substitution nor an insertion gets
+            # REF '.' and ALT '<op[3:]>, .'; any other mis-spelling is a new deviation
+            def known_render(x):
+                if x.op.startswith("ins"):
+                    return x.op[0], x.op[0] + x.op[3:]
+                return ".", f"{x.op[3:]}, ."
+
+            m = next((x for x in cand if known_render(x) == (ref, alt)
+                      and not (len(x.op) == 3 and x.op[1] == ">")), None)
+            if m is None:
+                m = cand[0]
+                kind = "new"
+            else:
+                kind = ("ins" if m.op.startswith("ins") else "delins" if "ins" in m.op else
+                        "del" if m.op.startswith("del") else "mnp")
             probs.append(f"[REFALT-{kind}] VCF REF/ALT {ref}>{alt} at {pos + 1} do not "
                          f"spell {m} against the reference ({gene[pos]})")
         seen.setdefault(m, []).append(r)
